@@ -256,6 +256,70 @@ func c04Units(tier string, seed int64) []Unit {
 			}
 		}
 	}})
+	// retried sub-draws inside scalar generators (a biased width whose first attempt exceeds the maximum): ranges whose
+	// exponent / magnitude span is not of the form 2^k-1, four values per test case, run = replay = pruned replay
+	units = append(units, Unit{Name: "C04/retried-sub-draws-of-scalar-ranges", Run: func(c *Ctx) {
+		tb := NewTB("C04")
+		tb.Quiet = true
+		var progs []Prog
+		for _, r := range [][2]float64{{1, 1000}, {0, 5}, {-20, 0.5}, {0.001, 3}, {-1e6, -3}, {5, 6e9}, {-7, 7}, {1e-300, 1e-5}} {
+			lo, hi := r[0], r[1]
+			progs = append(progs, Prog{Name: fmt.Sprintf("Float64Range(%g,%g)x4", lo, hi), New: func() func(t *rapid.T, r *Rec) {
+				g := rapid.Float64Range(lo, hi)
+				return func(t *rapid.T, r *Rec) {
+					for i := 0; i < 4; i++ {
+						r.Draws = append(r.Draws, Render(g.Draw(t, "f")))
+					}
+				}
+			}}, Prog{Name: fmt.Sprintf("Float32Range(%g,%g)x4", lo, hi), New: func() func(t *rapid.T, r *Rec) {
+				g := rapid.Float32Range(float32(lo), float32(hi))
+				return func(t *rapid.T, r *Rec) {
+					for i := 0; i < 4; i++ {
+						r.Draws = append(r.Draws, Render(g.Draw(t, "f")))
+					}
+				}
+			}})
+		}
+		for _, r := range [][2]int64{{0, 5}, {-20, 1000}, {3, 1 << 40}, {-(1 << 62) - 5, 1<<62 + 5}, {0, 200}} {
+			lo, hi := r[0], r[1]
+			progs = append(progs, Prog{Name: fmt.Sprintf("Int64Range(%d,%d)x4", lo, hi), New: func() func(t *rapid.T, r *Rec) {
+				g := rapid.Int64Range(lo, hi)
+				return func(t *rapid.T, r *Rec) {
+					for i := 0; i < 4; i++ {
+						r.Draws = append(r.Draws, Render(g.Draw(t, "i")))
+					}
+				}
+			}})
+		}
+		nseeds := 2500
+		if !quick {
+			nseeds = 40000
+		}
+		c.R.Bounds = fmt.Sprintf("seeds=%d programs=%d", nseeds, len(progs))
+		for _, p := range progs {
+			body := p.New()
+			pruned := 0
+			for s := 0; s < nseeds; s++ {
+				sd := uint64(seed)*7368787 + uint64(s) + 1
+				a, _ := runWith(body, func(prop func(*rapid.T)) rapid.VerifResult { return rapid.VerifRunSeed(tb, sd, false, prop) })
+				c.R.Evals++
+				if a.res.Kind != rapid.VerifOK || len(a.res.Pruned) == len(a.res.Data) {
+					continue // nothing was retried in this run
+				}
+				pruned++
+				c.R.States++
+				r3, _ := runWith(body, func(prop func(*rapid.T)) rapid.VerifResult { return rapid.VerifRunBuf(tb, a.res.Pruned, false, prop) })
+				c.R.Evals++
+				if r3.draws != a.draws || r3.res.Kind != a.res.Kind {
+					c.Violate(Violation{Sig: "C04 prune-replay-diverges prog=" + p.Name + " cause=retried-sub-draw",
+						Detail: fmt.Sprintf("seed %d: run draws %s; replay of the pruned recording (%d of %d words) %s draws %s", sd, a.draws, len(a.res.Pruned), len(a.res.Data), kindName(r3.res.Kind), r3.draws),
+						Replay: map[string]any{"engine": "seed", "program": p.Name, "seed": sd, "words": a.res.Data, "pruned": a.res.Pruned}})
+					break
+				}
+			}
+			c.Outcome(fmt.Sprintf("%s: runs with a retried sub-draw: %d", p.Name, pruned), pruned > 0)
+		}
+	}})
 	units = append(units, Unit{Name: "C04/short-mode-history", Run: func(c *Ctx) {
 		// -short changes how much work is done, never what the same bits mean - and a check must
 		// not leave anything behind that changes later checks in the process
